@@ -173,7 +173,7 @@ Definition same_dnames_below (z z' : list zframe) : Prop :=
 (* let / const / class / parameter on the top frame *)
 Lemma L_decl_top a fr pr rest decl x :
   AInv a ((fr, pr) :: rest) ->
-  decl = LexicalDecl \/ decl = ArgumentDecl \/ decl = CatchDecl ->
+  decl = LexicalDecl \/ decl = ArgumentDecl \/ decl = CatchDecl \/ decl = ExprDecl ->
   ~ In x (dnames fr) -> In x (pnames pr) -> (decl <> ArgumentDecl -> In x (plex pr)) ->
   (decl = ArgumentDecl -> ~ In (UPend x) (fund fr)) ->
   let z := (fr, pr) :: rest in
@@ -185,7 +185,7 @@ Lemma L_decl_top a fr pr rest decl x :
     map (final (env_of z)) (alog a') = TBind (fid fr) false x :: map (final (env_of z)) (alog a).
 Proof.
   intros A Hd Hnot Hp Hlex Harg z.
-  assert (Hnh : (decl =? VariableDecl) || (decl =? FunctionDecl) = false) by (destruct Hd as [-> | [-> | ->]]; reflexivity).
+  assert (Hnh : (decl =? VariableDecl) || (decl =? FunctionDecl) = false) by (destruct Hd as [-> | [-> | [-> | ->]]]; reflexivity).
   rewrite a_declare_unfold, Hnh. rewrite (A_stack _ _ A). cbn [map fst].
   rewrite a_declare_at_ok.
   2:{ apply for_check_notin. exact Hnot. }
